@@ -7,7 +7,7 @@ handler discipline per fiber and runs finally exactly once per exit. Constructs 
 findings are not generated (avoid tags); their pinned witnesses are replayed instead."""
 from .. import common
 from ..common import Check
-from ..gen import progs
+from ..gen import feat_exc, progs
 from . import modelcheck
 
 
@@ -38,12 +38,20 @@ def run(tier):
             src, mods = progs.generate(rng.fork(str(i)), prof)
             plist.append({"name": "%s/%d" % (name, i), "steps": [("snip", src)], "mods": mods})
 
+    r2 = ck.rng.fork("xmod")
+    for i in range(400 if quick else 10000):
+        src, mods = feat_exc.xmod_program(r2.fork(str(i)))
+        plist.append({"name": "xmod/%d" % i, "steps": [("snip", src)], "mods": mods})
+
     def seen(p, m, res):
         v = m["view"][0]
         src = p["steps"][0][1]
         if "catch" in src and any(t in ("caught", "<class TypeError>", "true", "false") or t.startswith("<class") for t in v["out"]) \
                 and any(t.startswith("finally") for t in v["out"]):
             ck.note_nontrivial(src)
+        elif p["name"].startswith("xmod/") and len(v["out"]) >= 4:
+            ck.note_nontrivial(src)
+            ck.count("cross_module_programs")
         ck.count("model_outcome_" + v["res"])
         ck.count("finally_blocks_run", sum(1 for t in v["out"] if t.startswith("finally")))
         if len(ck.samples) < 3 and len(v["out"]) > 3 and "finally" in src:
